@@ -28,7 +28,10 @@ def run(ck):
     ids = []
     for i, body in enumerate(cs):
         S.circuit(f"c{i}", body)
-        S.cmd("compile", f"k{i}", "pp", "%02x" % (0x61 + i), f"c{i}")
+        # circuits 0 and 1: 40-byte labels differing only in their last byte (beyond any fixed-size fingerprint);
+        # the others: one-byte labels
+        lab = (bytes((0x41 + (j % 26)) for j in range(39)) + bytes([0x30 + i])).hex() if i < 2 else "%02x" % (0x61 + i)
+        S.cmd("compile", f"k{i}", "pp", lab, f"c{i}")
         ids.append((S.cmd("prove", f"p{i}", f"k{i}", f"c{i}", 30 + i), S.cmd("prove", f"q{i}", f"k{i}", f"c{i}", 60 + i), S.cmd("verifierbytes", f"k{i}")))
     corpus = json.load(open(os.path.join(VERIF, "corpus", "c03_v2.json")))
     corp_ids = []
